@@ -205,11 +205,12 @@ class AngleBracketedChar(ExpressionToken):
         code = get_as_int(state, "Unicode code point", self, self.expr, bitness=None, unsigned=False)
         try:
             return chr(code)
-        except ValueError:
+        except (ValueError, OverflowError):
+            from .metacommand_impl import describe_int
             self.reported_error = True
             reports.error(
                 "value-out-of-bounds",
-                (self.ctx_start, self.ctx_end, f"<{code}> does not specify a valid Unicode code point because it's outside its range: [0; 0x110000).")
+                (self.ctx_start, self.ctx_end, f"<{describe_int(code)}> does not specify a valid Unicode code point because it's outside its range: [0; 0x110000).")
             )
             return ""
 
